@@ -56,20 +56,33 @@ def run_pool(scenarios, timeout=600):
 
 # ---------------------------------------------------------------- Coq emission
 HEADER = """From Coq Require Import String List ZArith Bool.
-From GV Require Import Rules.KcModel Rules.KcCheck Pool.Model Pool.Check.
+From GV Require Import Rules.KcModel Rules.KcCheck Pool.Model Pool.Check Engine.IR Engine.Hand Engine.Spec Pool.Compose.
 Import ListNotations.
 """
 
 
 def activity(events):
-    """(True,q) at the first rule entered by request q; (False,q) when its call returned"""
+    """(True,q) at the first rule entered by request q; (False,q) at the end of the LAST rule q ran.
+    Between those two events q certainly holds an engine instance, so counting them is a sound lower bound of the number of
+    simultaneous executions.  (The return of q's call is NOT usable as the end: the pool hands the instance back in a deferred
+    call before the caller's goroutine can record the return, so a waiter may legitimately enter its first rule first.)"""
+    last_exit, n_enter, n_exit = {}, {}, {}
+    for i, e in enumerate(events):
+        if e["kind"] == "exit":
+            last_exit[e["req"]] = i
+            n_exit[e["req"]] = n_exit.get(e["req"], 0) + 1
+        elif e["kind"] == "enter":
+            n_enter[e["req"]] = n_enter.get(e["req"], 0) + 1
     seen, out = set(), []
-    for e in events:
-        if e["kind"] == "enter" and e["req"] not in seen:
-            seen.add(e["req"])
-            out.append((True, e["req"]))
-        elif e["kind"] == "req-end" and e["req"] in seen:
-            out.append((False, e["req"]))
+    for i, e in enumerate(events):
+        q = e["req"]
+        if e["kind"] == "enter" and q not in seen:
+            seen.add(q)
+            out.append((True, q))
+        elif q in seen and n_enter.get(q) == n_exit.get(q) and e["kind"] == "exit" and last_exit[q] == i:
+            out.append((False, q))
+        elif q in seen and n_enter.get(q) != n_exit.get(q) and e["kind"] == "req-end":
+            out.append((False, q))      # a rule that never reached its exit marker: fall back to the return of the call
     return out
 
 
